@@ -9,7 +9,7 @@ references prove the real path was taken and expose the arguments passed.
 ID = "C13"
 LEVEL = "exploration"
 RULE = (
-    "seeded random configurations over closures x precisions x footprint/dispersion x analytic (CONSTANT) x default/explicit halo and modes "
+    "seeded random configurations over closures x precisions x footprint/dispersion x analytic (every closure) x default/explicit halo and modes "
     "x output_levels/full_output/default level x {z0 only, ustar only, both} x scalar/list forcing (1-4 steps) x 1-3 towers with "
     "different heights and lat/lon offsets x every time index x {ideal source with shape and src_loc, user-supplied flux}; each (tower, "
     "step) run is compared bit for bit with the hand-assembled pipeline and its metadata with the step / tower; the dict is also "
@@ -125,10 +125,16 @@ def make_config(rng):
             met["timestamps"] = [d + 1 for d in range(n_eff)]
         elif tk_ < 0.4:    # integer labels that are a permutation of the positions / hours of the day
             met["timestamps"] = [int(v) for v in rng.permutation(n_eff)] if rng.random() < 0.5 else [int(v) for v in rng.permutation(24)[:n_eff]]
+        elif tk_ < 0.55:   # date-times / dates as PyYAML reads an unquoted 2024-06-01T12:00:00 or 2024-06-01 (and writes them back)
+            import datetime as _dt
+
+            met["timestamps"] = [_dt.datetime(2024, 6, d + 1, 12, 30, 0) for d in range(n_eff)] if tk_ < 0.5 else [_dt.date(2024, 6, d + 1) for d in range(n_eff)]
     fp = bool(rng.random() < 0.6)
     sol = {"closure": closure, "precision": str(rng.choice(["single", "double"])), "footprint": fp,
            "surface_flux_shape": str(rng.choice(["diamond", "circle", "point"]))}
-    if closure == "CONSTANT" and rng.random() < 0.5:
+    if rng.random() < (0.5 if closure == "CONSTANT" else 0.15):
+        # with a similarity closure the closed form is evaluated with the top-node values of the configured closure's profiles - by the
+        # single run exactly as by the pipeline called by hand
         sol["analytic"] = True
     if rng.random() < 0.4:
         sol["src_loc"] = [float(rng.uniform(0, xmax)), float(rng.uniform(0, ymax))]
